@@ -317,6 +317,18 @@ def gen_long(rng, tier):
             merged += s
         drop = set(rng.sample(ids, 3))
         cases.append({"msgs": msgs, "orders": [merged, [j for j in merged if j not in drop]]})
+    # one task with more than a thousand distinct positions: a nested action's messages arrive before and after them,
+    # and a small second task is split around the whole of it
+    for width in ([1100] if tier == "quick" else [1100, 1500, 2300]):
+        forest = [["A", 10, "succeeded", [["A", 11, "succeeded", [["M", 12], ["A", 10, "succeeded", [["M", 13]]]]]] + [["M", 13]] * width],
+                  ["A", 11, "succeeded", [["M", 12], ["A", 10, "failed", [["M", 12]]]]]]
+        msgs = forests.linearize(forest)
+        t0 = [m["id"] for m in msgs if m["u"] == msgs[0]["u"]]
+        t1 = [m["id"] for m in msgs if m["u"] != msgs[0]["u"]]
+        nested = [j for j in t0 if len(msgs[j]["l"]) >= 2]
+        flat_ = [j for j in t0 if len(msgs[j]["l"]) < 2]
+        split = nested[:2] + t1[:2] + flat_ + t1[2:] + nested[2:]
+        cases.append({"msgs": msgs, "orders": [split, list(reversed(split))]})
     return cases
 
 
